@@ -12,7 +12,7 @@ struct RefCell { std::vector<RefNode> n; bool is_static; double node_mass; };
 struct Case { int pop, fpat, ppat, coupling, dti, dampi, densi, steps, ids = 0, slots = 0; };
 // persistent ids carried by the cells at list positions 0..n-1: start-up; after a removal at the list head; after removals in between; late in a run (ids far ahead of positions)
 static unsigned scheme_id(int scheme, unsigned i) { switch (scheme) { case 0: return i; case 1: return i + 1; case 2: return 2 * i; case 3: return 3 + 4 * i; default: return 70000 + 3 * i; /* beyond 16 bits */ } }
-static const double DTS[] = {1e-3, 0.5, 1e-7}, DAMPS[] = {0.1, 5.0, 1e3}, DENS[] = {1.0, 1e3, 1e-6};   // the third value of each only in the thorough tier
+static const double DTS[] = {1e-3, 0.5, 1e-7}, DAMPS[] = {0.1, 5.0, 1e3}, DENS[] = {1.0, 1e-15 /* per-node masses of 1e-17: what a micrometre cell weighs in kilograms */, 1e3};   // the third value of each only in the thorough tier
 static const char* pop_name[] = {"[epithelial octahedron]", "[epithelial octahedron, epithelial tetrahedron]", "[epithelial octahedron, epithelial tetrahedron, ECM octahedron]", "[static cube, epithelial octahedron, epithelial tetrahedron]", "[epithelial octahedron, epithelial tetrahedron, epithelial cube]"};
 static std::string case_json(const Case& c) { std::ostringstream o; o << "{\"population\":\"" << pop_name[c.pop] << "\",\"force_pattern\":" << c.fpat << ",\"momentum_pattern\":" << c.ppat << ",\"coupling\":" << c.coupling << ",\"dt\":" << DTS[c.dti] << ",\"damping\":" << DAMPS[c.dampi] << ",\"density\":" << DENS[c.densi] << ",\"persistent_ids\":\"" << scheme_id(c.ids, 0) << "," << scheme_id(c.ids, 1) << ",..\",\"free_node_slots\":" << c.slots << ",\"steps\":" << c.steps << "}"; return o.str(); }
 static std::string case_text(const Case& c) { std::ostringstream o; o << c.pop << " " << c.fpat << " " << c.ppat << " " << c.coupling << " " << c.dti << " " << c.dampi << " " << c.densi << " " << c.steps << " " << c.ids << " " << c.slots; return o.str(); }
